@@ -100,7 +100,7 @@ if __name__ == "__main__":
         CHECKS.update(bounded_more.CHECKS)
     except ImportError:
         pass
-    for extra in ("bounded_opt", "bounded_smt", "bounded_solver", "bounded_hashcons", "bounded_work"):
+    for extra in ("bounded_opt", "bounded_smt", "bounded_solver", "bounded_hashcons", "bounded_work", "bounded_round3"):
         try:
             CHECKS.update(__import__("native." + extra, fromlist=["CHECKS"]).CHECKS)
         except ImportError:
